@@ -43,10 +43,14 @@ type plan struct {
 }
 
 func (p plan) famKey() string {
+	k := p.Fam.Name
 	if p.Pad != 0 {
-		return fmt.Sprintf("%s+pad%d", p.Fam.Name, p.Pad)
+		k += fmt.Sprintf("+pad%d", p.Pad)
 	}
-	return p.Fam.Name
+	if p.Restart {
+		k += "+restart"
+	}
+	return k
 }
 
 var (
@@ -67,18 +71,21 @@ var (
 	alphaMore = []string{
 		"unvote2", "vote-unreg-rereg", "register-by-payment", "block-voter2", "block-account3", "halt-all", "policy-fee+tx",
 		"n-deposit2-more", "n-deposit-for2", "n-deposit-bad", "n-withdraw2-to4", "n-lock2", "designate-notary",
+		"no-witness", "bad-args", "gas-per-block7", "gas-per-block0", "register-price500", "drop1", "reelect1", "claim12", "recover2@1y",
 	}
 	alphaMulti = []string{
 		"empty", "vote1", "vote2for1", "vote2+transfer", "unvote1", "voter-moves", "unregister1", "register1",
-		"zero-transfer", "fault-all", "n-deposit2-short", "policy-fee+tx",
+		"zero-transfer", "fault-all", "n-deposit2-short", "policy-fee+tx", "spread-votes",
 	}
-	alphaMultiDeep = []string{"empty", "vote1", "vote2+transfer", "unvote1", "unregister1", "voter-moves", "zero-transfer", "register1"}
+	alphaMultiDeep = []string{"empty", "vote1", "vote2+transfer", "unvote1", "unregister1", "voter-moves", "zero-transfer", "register1", "spread-votes"}
 	alphaNotary    = []string{
 		"empty", "n-withdraw2", "n-withdraw2-to4", "n-deposit2-more", "n-deposit-for2", "n-lock2", "n-assisted",
-		"n-deposit-bad", "notary-deposit", "fault-all", "halt-all",
+		"n-deposit-bad", "notary-deposit", "fault-all", "halt-all", "n-lock2-early", "n-deposit5-exact", "n-assisted5", "no-witness",
 	}
-	alphaGov   = []string{"vote1", "vote2for1", "unvote1", "unregister1", "register1", "voter-moves", "vote2+transfer", "zero-transfer", "whole-balance", "fault-all", "block-voter2"}
-	pairSetups = []string{"empty", "vote2for1", "register2", "vote1", "vote2+transfer", "n-deposit2-short"}
+	alphaGov     = []string{"vote1", "vote2for1", "unvote1", "unregister1", "register1", "voter-moves", "vote2+transfer", "fault-all", "block-voter2", "drop1", "reelect1", "claim12", "recover2@1y"}
+	alphaReelect = []string{"empty", "claim12", "drop1", "reelect1", "unvote1", "vote1", "unregister1", "voter-moves"}
+	alphaRestart = []string{"empty", "vote1", "vote2for1", "unvote1", "voter-moves", "drop1", "reelect1", "claim12", "gas-per-block7", "n-deposit2-short", "n-withdraw2", "whole-balance"}
+	pairSetups   = []string{"empty", "vote2for1", "register2", "vote1", "vote2+transfer", "n-deposit2-short"}
 )
 
 func names(ts []chainx.Tpl) []string {
@@ -109,9 +116,23 @@ func plans(thorough bool) []plan {
 	for _, pad := range []int{0, 1, 2} {
 		ps = append(ps, plan{Name: fmt.Sprintf("multi/pad%d", pad), Fam: famMulti, Pad: pad, Levels: rep(alphaMulti, 2)})
 	}
+	ps = append(ps,
+		// vote1 at 4, rate change at 5 (committee = account 1 from here, rewards per vote are stored): claims
+		// at 6 and 7 span the rate boundary and, after the restart, read the stored reward
+		plan{Name: "single/restart", Fam: famSingle, Prefix: []string{"vote1", "gas-per-block7"}, Levels: rep(alphaRestart, 2), Restart: true},
+		// candidate 1 dropped with accrued rewards and elected again
+		plan{Name: "single/reelect/restart", Fam: famSingle, Prefix: []string{"vote1", "vote2for1", "drop1", "reelect1"}, Levels: rep(alphaReelect, 2), Restart: true},
+		plan{Name: "multi/pad1/restart", Fam: famMulti, Pad: 1, Levels: rep(alphaMultiDeep, 2), Restart: true},
+	)
 	if !thorough {
 		return ps
 	}
+	ps = append(ps,
+		plan{Name: "single/restart3", Fam: famSingle, Levels: rep(alphaRestart, 3), Restart: true},
+		plan{Name: "single/reelect3", Fam: famSingle, Prefix: []string{"vote1", "vote2for1", "drop1", "reelect1"}, Levels: rep(alphaReelect, 3)},
+		plan{Name: "multi/pad0/restart3", Fam: famMulti, Pad: 0, Levels: rep(alphaMultiDeep, 3), Restart: true},
+		plan{Name: "single/notary/restart", Fam: famSingle, Prefix: []string{"n-setup", "empty"}, Levels: rep(alphaNotary, 2), Restart: true},
+	)
 	pt := names(pairTemplates(len(pairOps())))
 	ps = append(ps,
 		plan{Name: "single/pairs-all", Fam: famSingle, Levels: [][]string{pairSetups, pt}},
@@ -194,6 +215,7 @@ type caseRec struct {
 	Multi    bool     `json:"multi"`
 	SRIH     bool     `json:"srih"`
 	Pad      int      `json:"pad"`
+	Restart  bool     `json:"restart,omitempty"`
 	History  []string `json:"history"` // template names after the preamble ("" = violation inside the preamble)
 	Height   uint32   `json:"height"`
 	Inv      string   `json:"invariant"`
@@ -269,7 +291,7 @@ func (pr *planRun) report(hist []string, height uint32, vs []viol, key string) {
 		vs = vs[:8]
 	}
 	inv := firstInv(vs)
-	rec := caseRec{Plan: pr.p.Name, Family: pr.p.Fam.Name, Multi: pr.p.Fam.Multi, SRIH: pr.p.Fam.SRIH, Pad: pr.p.Pad, History: hist, Height: height, Inv: inv, Viols: vs}
+	rec := caseRec{Plan: pr.p.Name, Family: pr.p.Fam.Name, Multi: pr.p.Fam.Multi, SRIH: pr.p.Fam.SRIH, Pad: pr.p.Pad, Restart: pr.p.Restart, History: hist, Height: height, Inv: inv, Viols: vs}
 	pr.st.mu.Lock()
 	pr.st.byInv[inv]++
 	pr.st.mu.Unlock()
@@ -598,7 +620,7 @@ func finish(r *vk.Run, st *stats, histories int, ps []plan) {
 		for _, l := range p.Levels {
 			ls = append(ls, fmt.Sprint(len(l)))
 		}
-		planDesc = append(planDesc, fmt.Sprintf("%s: family=%s pad=%d prefix=%v levels=%s", p.Name, p.Fam.Name, p.Pad, p.Prefix, strings.Join(ls, "x")))
+		planDesc = append(planDesc, fmt.Sprintf("%s: family=%s pad=%d prefix=%v levels=%s restart=%v", p.Name, p.Fam.Name, p.Pad, p.Prefix, strings.Join(ls, "x"), p.Restart))
 	}
 	na := map[string]int{}
 	for k, v := range st.notAppl {
@@ -629,7 +651,8 @@ func finish(r *vk.Run, st *stats, histories int, ps []plan) {
 		"alphabet_gov_depth3":           alphaGov,
 		"alphabet_multi_depth3":         alphaMultiDeep,
 		"pair_ops":                      "v1 t v2 u r2 x2 | d w z (ordered pairs of distinct ops of account 2 in one block; quick uses the first 6)",
-		"invariants":                    []string{"neo-supply", "neo-sum", "gas-sum", "candidate-votes", "voters-count", "notary-deposits", "negative", "delta-events"},
+		"invariants":                    []string{"neo-supply", "neo-sum", "gas-sum", "candidate-votes", "voters-count", "notary-deposits", "negative", "delta-events", "restart-differs (restart plans)"},
+		"alphabet_restart":              alphaRestart,
 		"rule":                          "state = decoded (NEO balances+VoteTo, GAS balances, candidates, votersCount, deposits, supplies) at a block boundary; every boundary of every history (genesis, preamble, each tree node) is decoded from raw storage, cross-checked with the getters and evaluated",
 	}
 	if len(st.byInv) > 0 {
@@ -655,7 +678,7 @@ func replay(r *vk.Run) {
 	st := newStats()
 	reproduced := 0
 	for i := 0; i < 5; i++ {
-		p := plan{Name: c.Plan, Fam: chainx.Family{Name: c.Family, Multi: c.Multi, SRIH: c.SRIH}, Pad: c.Pad, Prefix: c.History}
+		p := plan{Name: c.Plan, Fam: chainx.Family{Name: c.Family, Multi: c.Multi, SRIH: c.SRIH}, Pad: c.Pad, Prefix: c.History, Restart: c.Restart}
 		pr := &planRun{p: p, st: st}
 		ok, err := pr.setup()
 		if err != nil {
